@@ -31,7 +31,8 @@ RULE = ("seeded configurations x latency scripts x addition scripts; distinct = 
         "ticks observed and (a latency >= 1 period or a series added while running or a non-aligned creation phase)")
 REQUIRED_BUCKETS = ["align:none", "align:epoch", "align:past-nonmultiple", "align:future", "creation-exactly-aligned",
                     "creation-1us-off", "latency>=1period", "latency-several-periods", "series-added-between-ticks",
-                    "series-added-during-slow-tick", "catch-up-observed", "multi-series"]
+                    "series-added-during-slow-tick", "catch-up-observed", "multi-series", "actor-tier",
+                    "actor-tier:timer-late>=1period"]
 REQUIRED_COUNTERS = ["ticks_observed", "runs"]
 ASSUMPTIONS = ["virtual time; sources are healthy channels (source failures are out of this property's scope)"]
 
@@ -43,6 +44,8 @@ def budget(tier: str) -> dict[str, Any]:
 
 
 def gen(rng: Any, tier: str, i: int) -> Any:
+    if rng.random() < 0.25:
+        return gen_actor(rng)
     period = rng.choice([0.1, 0.2, 1.0, 1.0, 2.5, 60.0])
     ak = rng.choice(["none", "epoch", "past", "future"])
     align = {"none": None, "epoch": 0.0, "past": -rng.choice([0.3, 7.123456, 1234.5]) * 1.0,
@@ -103,7 +106,171 @@ def _resolve_add_in_tick(case: dict[str, Any]) -> dict[str, Any]:
     return c
 
 
+# ------------------------------------------------------------------ actor tier
+# The real ComponentMetricsResamplingActor (microgrid/_resampling.py) over a ChannelRegistry: subscription
+# requests arrive before start / between ticks / in bursts; the loop is made "busy" (virtual clock jumps while a
+# harness task holds the loop) so that the timer fires late by up to several periods.
+
+
+def gen_actor(rng: Any) -> dict[str, Any]:
+    period = rng.choice([0.2, 1.0, 1.0, 2.5])
+    ticks = rng.randint(12, 30)
+    nreq = rng.randint(1, 5)
+    reqs = []
+    for j in range(nreq):
+        at = 0.0 if j == 0 or rng.random() < 0.3 else round(rng.uniform(0.1, ticks - 5) * period, 6)
+        reqs.append([at, 10 + j, rng.random() < 0.25])  # (time, component id, send a duplicate right after)
+    reqs.sort()
+    busy = [[round(rng.uniform(1, ticks - 4) * period, 6), rng.choice([0.3, 1.0, 1.000001, 2.2, 3.7]) * period]
+            for _ in range(rng.randint(0, 3))]
+    busy.sort()
+    return {"tier": "actor", "period": period, "ticks": ticks, "requests": reqs, "busy": busy,
+            "start_offset": round(rng.choice([0.0, 0.3, 0.999999]) * period + rng.randint(0, 20) * period, 6)}
+
+
+async def _drive_actor_tier(case: dict[str, Any], out: dict[str, Any]) -> None:
+    import asyncio
+    from datetime import datetime, timezone
+
+    from frequenz.channels import Broadcast
+    from frequenz.client.microgrid import ComponentMetricId
+    from frequenz.quantities import Quantity
+
+    import frequenz.sdk.microgrid  # noqa: F401
+    from frequenz.sdk._internal._channels import ChannelRegistry
+    from frequenz.sdk.microgrid._data_sourcing import ComponentMetricRequest
+    from frequenz.sdk.microgrid._resampling import ComponentMetricsResamplingActor
+    from frequenz.sdk.timeseries import Sample
+    from frequenz.sdk.timeseries._resampling import ResamplerConfig
+
+    loop = asyncio.get_event_loop()
+    p = case["period"]
+    reg = ChannelRegistry(name="reg")
+    ds_req = Broadcast(name="ds")
+    ds_rx = ds_req.new_receiver(limit=1000)
+    rs_req = Broadcast(name="rs")
+    out["created"] = datetime.now(timezone.utc)
+    actor = ComponentMetricsResamplingActor(channel_registry=reg, data_sourcing_request_sender=ds_req.new_sender(),
+                                            resampling_request_receiver=rs_req.new_receiver(limit=1000),
+                                            config=ResamplerConfig(resampling_period=timedelta(seconds=p)))
+    actor.start()
+    rtx = rs_req.new_sender()
+    t0 = loop.time()
+    sinks: dict[int, Any] = {}
+    feeders: list[Any] = []
+
+    async def feed(cid: int, name: str) -> None:
+        tx = reg.get_or_create(Sample[Quantity], name).new_sender()
+        k = 0
+        while True:
+            await tx.send(Sample(datetime.now(timezone.utc), Quantity(float(k))))
+            k += 1
+            await asyncio.sleep(p * 0.37)
+
+    async def data_sourcing() -> None:
+        async for req in ds_rx:  # what the DataSourcingActor would do: start streaming on the ':Source' channel
+            feeders.append(asyncio.create_task(feed(req.component_id, req.get_channel_name())))
+
+    ds_task = asyncio.create_task(data_sourcing())
+
+    async def busy_loop() -> None:
+        clock = loop._selector.clock  # noqa: SLF001
+        for at, dur in case["busy"]:
+            dt = t0 + at - loop.time()
+            if dt > 0:
+                await asyncio.sleep(dt)
+            clock.advance(dur)  # the loop was blocked for `dur` seconds: every timer due meanwhile fires late
+
+    busy_task = asyncio.create_task(busy_loop())
+    for at, cid, dup in case["requests"]:
+        dt = t0 + at - loop.time()
+        if dt > 0:
+            await asyncio.sleep(dt)
+        req = ComponentMetricRequest("ns", cid, ComponentMetricId.ACTIVE_POWER, None)
+        if cid not in sinks:
+            sinks[cid] = {"rx": reg.get_or_create(Sample[Quantity], req.get_channel_name()).new_receiver(limit=5000),
+                          "requested_at": datetime.now(timezone.utc)}
+        await rtx.send(req)
+        if dup:
+            await rtx.send(req)
+    dt = t0 + case["ticks"] * p - loop.time()
+    if dt > 0:
+        await asyncio.sleep(dt)
+    # + an off-grid offset: frequenz-channels' Timer.ready() swallows a cancellation that lands in the one loop
+    # iteration in which it awaits its cancelled helper task (at every tick instant), after which
+    # ComponentMetricsResamplingActor.stop() never returns. That is a defect of the third-party Timer (not of
+    # this repository), reproducible by stopping exactly on a tick instant; the harness therefore stops off-grid.
+    await asyncio.sleep(5 * p + 0.123 * p)
+    out["drained_at"] = datetime.now(timezone.utc)
+    out["sinks"] = {}
+    for cid, s in sinks.items():
+        lst = []
+        while s["rx"]._q:  # noqa: SLF001
+            x = s["rx"].consume()
+            lst.append(x.timestamp)
+        out["sinks"][cid] = {"ts": lst, "requested_at": s["requested_at"]}
+    for f in feeders:
+        f.cancel()
+    ds_task.cancel()
+    busy_task.cancel()
+    await actor.stop()
+
+
+def check_actor_tier(case: dict[str, Any], rec: Any) -> None:
+    from ..vloop import run_virtual
+
+    out: dict[str, Any] = {}
+    run_virtual(lambda: _drive_actor_tier(case, out), start_offset=case["start_offset"])
+    rec.bucket("actor-tier")
+    rec.count("runs")
+    p = case["period"]
+    per = timedelta(seconds=p)
+    if any(d >= p for _, d in case["busy"]):
+        rec.bucket("actor-tier:timer-late>=1period")
+    glob = sorted({t for s in out["sinks"].values() for t in s["ts"]})
+    w0 = {"tier": "actor", "period": p, "busy": case["busy"], "requests": case["requests"]}
+    if not glob:
+        rec.violation("no-sample-emitted", w0)
+        return
+    rec.count("ticks_observed", len(glob))
+    base = EPOCH  # ResamplerConfig.align_to defaults to the UNIX epoch; EPOCH is a multiple of every period used
+    ks = []
+    for ts in glob:
+        q = (ts - base) / per
+        if abs(q - round(q)) > 1e-9:
+            rec.violation("timestamp-not-on-the-alignment-grid", {**w0, "timestamp": str(ts)})
+            return
+        ks.append(round(q))
+    if ks != list(range(ks[0], ks[0] + len(ks))):
+        rec.violation("tick-skipped-or-duplicated", {**w0, "ks": ks[:60]})
+    if not (out["created"] <= glob[0] <= out["created"] + 2 * per):
+        rec.violation("first-tick-outside-[creation,creation+2periods]", {**w0, "first": str(glob[0])})
+    for cid, s in out["sinks"].items():
+        tss = s["ts"]
+        if tss != sorted(set(tss)):
+            rec.violation("series-timestamps-repeated-or-reordered", {**w0, "series": cid})
+            continue
+        if not tss:
+            rec.violation("series-never-received-a-sample", {**w0, "series": cid})
+            continue
+        expect = [g for g in glob if g >= tss[0]]
+        if tss != expect and tss != expect[:-1]:
+            rec.violation("series-timestamps-not-shared-or-gapped", {**w0, "series": cid, "got": [str(t) for t in tss[:30]]})
+        # a subscription is served from the current or the next tick (+ the busy time the loop was blocked)
+        maxbusy = max([d for _, d in case["busy"]] or [0.0])
+        if tss[0] > s["requested_at"] + 2 * per + timedelta(seconds=maxbusy):
+            rec.violation("subscription-served-too-late", {**w0, "series": cid, "first": str(tss[0]),
+                                                           "requested_at": str(s["requested_at"])})
+    if glob[-1] < out["drained_at"] - per - timedelta(microseconds=1):
+        rec.violation("not-caught-up-after-lateness-stopped", {**w0, "last_tick": str(glob[-1]), "now": str(out["drained_at"])})
+    rec.nontrivial(len(glob) >= 8 and (len(case["requests"]) > 1 or bool(case["busy"])))
+    rec.observed({"tier": "actor", "ticks": len(glob), "series": {str(c): len(s["ts"]) for c, s in out["sinks"].items()}})
+
+
 def check(case: dict[str, Any], rec: Any) -> None:
+    if case.get("tier") == "actor":
+        check_actor_tier(case, rec)
+        return
     c = _resolve_add_in_tick(case)
     p = c["period"]
     per = timedelta(seconds=p)
